@@ -44,7 +44,12 @@ type c10Scenario struct {
 	// Reverse: canonical order with the most recently created thread first, so that the node's own loop runs last and
 	// the connections' exit reports pile up in the completion channel
 	Reverse bool `json:"reverse,omitempty"`
+	// Configured: association 0 is set up by the agent towards a peer of its configuration (cpiface.peers), given as an
+	// address ("addr") or as a host name ("name") that the execution's name service resolves to the peer's address
+	Configured string `json:"configured,omitempty"`
 }
+
+const c10PeerHostName = "smf.core.example.org"
 
 const c10N4 = "10.0.0.1"
 
@@ -142,16 +147,46 @@ func c10Run(sc c10Scenario, prefix []int, sigs []string) (*vsched.Sched, schedVe
 	s.Run(func() {
 		fab := vnet.NewFabric()
 		w.u, w.fb = u, fb
+		var configured *vnet.Peer
+		if sc.Configured != "" && sc.NAssoc > 0 {
+			// the peer of the configuration exists (and its name resolves) before the node starts
+			configured = fab.Peer(c10PeerAddr(0))
+			u.peers = []string{"10.0.1.1"}
+			if sc.Configured == "name" {
+				fab.Hosts[c10PeerHostName] = "10.0.1.1"
+				u.peers = []string{c10PeerHostName}
+			}
+		}
 		w.node = NewPFCPNode(u)
 		vsched.Go("harness.serve", w.node.Serve)
 		for i := 0; i < sc.NAssoc; i++ {
-			p := fab.Peer(c10PeerAddr(i))
+			var p *vnet.Peer
+			if i == 0 && configured != nil {
+				p = configured
+			} else {
+				p = fab.Peer(c10PeerAddr(i))
+			}
 			w.peers = append(w.peers, p)
 			conns[i] = &vConn{node: fmt.Sprintf("10.0.1.%d", i+1), seq: 1}
 			// NewPFCPConn seeds the association's random source from the clock: under a frozen virtual clock two associations
 			// would draw the same SEIDs, which real time makes a 2^-64 event; let a millisecond pass between them
 			vtime.Sleep(time.Millisecond)
-			p.Send(c10N4+":8805", (&sReq{Kind: kAssoc, Seq: 1}).build(conns[i]).marshal())
+			if i == 0 && configured != nil {
+				// the agent asks, the peer accepts
+				vsched.Quiesce("agent-assoc-request")
+				d, err := (*vResp)(nil), error(nil)
+				if len(p.Inbox) == 1 {
+					d, err = vDecode(p.Inbox[0])
+				}
+				if d == nil || err != nil || d.Type != message.MsgTypeAssociationSetupRequest {
+					prologueErr = fmt.Sprintf("no Association Setup Request reached the configured peer (%d datagrams)", len(p.Inbox))
+					return
+				}
+				p.Send(c10N4+":8805", (&vMsg{Type: message.MsgTypeAssociationSetupResponse, Seq: d.Seq, IEs: []*vIE{vNodeIDIE(conns[0].node), vFromIE(ie.NewCause(ie.CauseRequestAccepted)),
+					vFromIE(ie.NewRecoveryTimeStamp(time.Unix(1600000000, 0)))}}).marshal())
+			} else {
+				p.Send(c10N4+":8805", (&sReq{Kind: kAssoc, Seq: 1}).build(conns[i]).marshal())
+			}
 			vsched.Quiesce("assoc")
 			for k := 0; k < sc.Sessions; k++ {
 				p.Send(c10N4+":8805", c10Est(conns[i], uint64(0x70+i*4+k), i*4+k))
@@ -392,7 +427,12 @@ func c10Run(sc c10Scenario, prefix []int, sigs []string) (*vsched.Sched, schedVe
 	if !stopAsked {
 		w.node.pConns.Range(func(k, val any) bool {
 			for i := 0; i < sc.NAssoc; i++ {
-				if ended[i] && k.(string) == c10PeerAddr(i) && !(reassocTried && i == 0) {
+				// the entry of the ended association, whatever string it is filed under
+				ofPeer := k.(string) == c10PeerAddr(i)
+				if pc, ok := val.(*PFCPConn); ok && pc.Conn != nil && pc.RemoteAddr() != nil && pc.RemoteAddr().String() == c10PeerAddr(i) {
+					ofPeer = true
+				}
+				if ended[i] && ofPeer && !(reassocTried && i == 0) {
 					// a Heartbeat Request that arrives after the teardown legitimately creates a fresh, unassociated
 					// PFCPConn for the address (C12: answered before or after association): only an entry that still
 					// carries the old association is a failure
@@ -492,6 +532,14 @@ func c10Scenarios() []c10Scenario {
 	add(2, 1, false, false, "stop")
 	out[len(out)-1].InFlightHB = true
 	out[len(out)-1].Name += "+inflight-hb"
+	// association 0 set up by the agent towards a peer of its configuration, given by address or by host name
+	for _, how := range []string{"addr", "name"} {
+		for _, trig := range [][]string{{"release@0"}, {"hbfail@0"}, {"stop"}} {
+			add(1, 1, false, false, trig...)
+			out[len(out)-1].Configured = how
+			out[len(out)-1].Name += "+configured-by-" + how
+		}
+	}
 	// "with any number of live associations": more than the node's completion channel buffers (100)
 	for _, n := range []int{101, 130} {
 		add(n, 0, false, false, "stop")
